@@ -32,7 +32,9 @@ def grammar():
                  "G92 E-0.0000001", "M206", "M206 X5", "M206 X Y Z", "M206 X-5 Z0.5", "G4 P100", "M117 hello world",
                  "M117", "M204 S500", "M204 S", "M204 S0.0000001 T1000000000000000", "M205 X5 Y", "M106 S255", "M106",
                  "M73 P5 R10", "M999", "T0", "T1", "G5 X1", "M82", "M83", "G29", "M400", "G38.2 Z5", "M204 Hello ; x",
-                 "G1.5 X5", "M117 E1e-05", "G0 X1e5"])
+                 "G1.5 X5", "M117 E1e-05", "G0 X1e5",
+                 # spellings of the firmware retraction the filter has to re-generate (ninth wave, w9c09)
+                 "g10 s1", "g11 s1", "g10", "G10\tS1", "G10S1"])
     return sorted(cmds)
 
 
